@@ -68,7 +68,11 @@ fn map_map(
     let (cel, mut bindings) = helpers::setup_context(ctx);
     let mut mapped = Vec::new();
 
-    for key in map.into_keys() {
+    // a HashMap hands its keys out in a different order for every instance
+    let mut keys: Vec<String> = map.into_keys().collect();
+    keys.sort();
+
+    for key in keys.into_iter() {
         let value: CelValue = key.into();
         bindings.bind_param(ident_name, value.clone());
         let interp = ctx.child(&cel, &bindings);
